@@ -851,7 +851,13 @@ macro_rules! pair_a {
             }
             builder.connect(acc, expected);
             let circuit = builder.build().expect("base circuit builds");
-            let packing = TablePacking::new(1, 1).with_fri_params(0, case.fin.log_blowup as usize);
+            let packing = if variant >= 2 {
+                TablePacking::new(1 + (case.seed % 2) as usize, 1 + ((case.seed >> 1) % 3) as usize)
+                    .with_horner_pack_k(3 + ((case.seed >> 3) % 2) as usize)
+            } else {
+                TablePacking::new(1, 1)
+            }
+            .with_fri_params(0, case.fin.log_blowup as usize);
             let (airs_degrees, prim, non_prim) = get_airs_and_degrees_with_prep::<InC, F, 1>(
                 &circuit,
                 &packing,
